@@ -8,15 +8,17 @@ SPEC = {
     'closure_dirs': ['theories/C20', 'theories/Base/Outcome.v'],
     'harness': 'c20',
     'args': {
-        'quick': ['-graphs', 400, '-children', 9],
-        'thorough': ['-graphs', 6000, '-children', 24],
+        'quick': ['-graphs', 400, '-children', 9, '-shapes', 120],
+        'thorough': ['-graphs', 6000, '-children', 24, '-shapes', 2500],
     },
-    'search_args': ['-graphs', 3000, '-children', 9],
+    'search_args': ['-graphs', 3000, '-children', 9, '-shapes', 1000],
     'assumptions': [
         'value graphs are trees of inline Go values whose pointers/slices/maps are addresses into a heap of cells; a cell index stands for one (address, type) reference as eq4i compares it: a pointer to the first field / element of a value is a cell of its own holding the same contents (the harness generates *Header -> the embedded first field of a Book and *Cell -> element 0 of a *[2]Cell)',
         'C20_sound/C20_depth assume that every cycle passes through a pointer to struct/slice/array/map (nopush_wf): cycles through maps, slices, *interface{} or `type P *P` only are outside the property; the model exhausts every budget on them and the implementation overflows the stack / spins (child-process runs)',
         'the stack budget d counts nested edges of the value graph; one edge is a constant number of Go frames (encodeValue -> fn.fe -> kXxx)',
         'model of encodeValue/ci is hand written; tied by replaying Encode/Encode/Reset/Encode on the same graphs (vm_compute) and by mutation tests',
+        'the model records EVERY pointer edge to a struct/slice/array/map on ONE stack: it has no pointer that is dereferenced unrecorded (the builtin shortcut encodeIB(baseRVRV(..)) of the struct/slice/map coders) and no side encoder with a stack of its own (Canonical out-of-band map keys). The pinned code had both (F20-3, F20-4: fatal stack overflow on cycles through *[]interface{} / *map[string]interface{} fields, elements, map values, and through pointer map keys under Canonical); repaired in /repo. C20_every_pointer_edge_recorded / C20_unrecorded_edge_refuted state the assumption on the model; the deterministic harness streams ptrcoll / ptrkey place a pointer to a container in every position in which the encoder dereferences one (simple / omitempty / toarray struct field, slice / array / MapBySlice element, map key / value, double pointer, interface, out-of-band key) and check it on the implementation',
+        're-entrant Selfers (CodecEncodeSelf calling MustEncode / Encode on the same Encoder) are transparent in the model: a Selfer node is the struct of what it writes; the harness stream selfer checks that nested calls keep the stack (cycle through Selfers reported, acyclic graphs with a pointer above a Selfer accepted, bytes equal with and without the option)',
         'user marshalers: failing or panicking ones are leaves (their error is recovered by Encode defer); well-behaved ones are scalars',
     ],
     'trusted_extra': ['modelled, not verified: encodeValue, circularRefChecker, kStruct/kArrayW/kMap traversal order, panicValToErr (encode.go, helper.go); reflection, Go stack growth'],
@@ -27,7 +29,7 @@ def main(chk):
 
 MANIFEST = {
     'category': 'proof',
-    'technique': 'Coq proofs (induction on the stack budget with a pigeonhole measure on the circular-reference stack; ancestor invariant) on an executable model of the encoder traversal + vm_compute correspondence on random value graphs + direct oracle with an independent cycle detector on real Encoders (5 formats), child processes for the runs that exhaust the stack',
+    'technique': 'Coq proofs (induction on the stack budget with a pigeonhole measure on the circular-reference stack; ancestor invariant) on an executable model of the encoder traversal + vm_compute correspondence on random value graphs + direct oracle with an independent cycle detector on real Encoders (5 formats) on random graphs and on deterministic shape streams (pointers to fast-path collections in every shortcut position, pointer map keys with and without Canonical, re-entrant Selfers), child processes for the runs that exhaust or may exhaust the stack',
     'text': 'For ALL heaps and values: with CheckCircularRef a reachable cycle through a pointer-to-container is rejected with an error within a stack budget of (cells+1)*(R+1)+1 nested edges (C20_sound, C20_depth); no acyclic graph is ever reported circular, whatever the sharing (C20_complete); an unrepresentable leaf anywhere prevents a normal return and gives an error (C20_leaves, C20_leaf_table); a successful Encode leaves the stack balanced and Reset after an error gives a fresh Encoder (C20_balanced, C20_reset); without the option cyclic graphs exhaust any budget (C20_nocheck_diverges).',
-    'note': 'Trusted: Coq kernel, the hand-written traversal model (correspondence-checked on random graphs and Encode/Encode/Reset/Encode op sequences), the harness and its reflect-based cycle detector, Go toolchain. Interior pointers to offset 0 (same address, other type) are generated and covered by the theorems (C20_typed_identity); embedded-pointer cycles are not generated. Cycles without any pointer-to-container edge are outside the property (stack overflow or hang, recorded in evidence as child.stack / child.hang).',
+    'note': 'Trusted: Coq kernel, the hand-written traversal model (correspondence-checked on random graphs and Encode/Encode/Reset/Encode op sequences), the harness and its reflect-based cycle detector, Go toolchain. Interior pointers to offset 0 (same address, other type) are generated and covered by the theorems (C20_typed_identity); embedded-pointer cycles are not generated. The model assumes that every pointer edge to a container is recorded on one stack (C20_every_pointer_edge_recorded, C20_unrecorded_edge_refuted); the implementation is checked for it position by position by the ptrcoll / ptrkey / selfer streams (findings F20-3, F20-4 repaired; the selfer stream also exposed F17-3 (pointer-shaped by-value values whose address the encoder needs), repaired). Cycles without any pointer-to-container edge are outside the property (stack overflow or hang, recorded in evidence as child.stack / child.hang).',
 }
